@@ -475,54 +475,6 @@ func (m *engineMon) afterOp(opLine string, pre *pokerface.GameState, err error) 
 		}
 	}
 
-	// ---------- C11 offered actions ----------
-	if st.CurrentEvent == "RoundStarted" && st.CurrentPlayer >= 0 && st.CurrentPlayer < n {
-		p := gs.Players[st.CurrentPlayer]
-		a := p.AllowedActions
-		cw, prev, mb := st.CurrentWager, st.PreviousRaiseSize, st.MiniBet
-		bad := func(what string) {
-			m.V("C11", "offered_spec", fmt.Sprintf("%s: seat %d fold=%v stack=%d initial=%d wager=%d, wager to match %d, previous raise %d, minimum bet %d, offered %v",
-				what, p.Idx, p.Fold, p.StackSize, p.InitialStackSize, p.Wager, cw, prev, mb, a))
-		}
-		if p.Fold || p.StackSize == 0 {
-			if len(a) != 1 || a[0] != "pass" {
-				bad("a folded or all-in seat must only be asked to pass")
-			}
-		} else {
-			facing := p.Wager < cw
-			if has(a, "pass") {
-				bad("pass offered to a player who can act")
-			}
-			if !has(a, "allin") {
-				bad("all-in not offered")
-			}
-			if has(a, "fold") != facing {
-				bad("fold must be offered exactly when facing a higher wager")
-			}
-			if has(a, "check") != !facing {
-				bad("check must be offered exactly when not facing a higher wager")
-			}
-			if facing && p.InitialStackSize > cw && !has(a, "call") {
-				bad("call not offered although the wager can be covered with chips to spare")
-			}
-			if has(a, "call") && !facing {
-				bad("call offered without a wager to face")
-			}
-			if cw == 0 && p.InitialStackSize >= mb && !has(a, "bet") {
-				bad("bet not offered")
-			}
-			if has(a, "bet") && cw != 0 {
-				bad("bet offered although a wager stands")
-			}
-			if cw > 0 && p.InitialStackSize > cw+prev && p.InitialStackSize >= mb && !has(a, "raise") {
-				bad("raise not offered")
-			}
-			if has(a, "raise") && cw == 0 {
-				bad("raise offered although nobody has wagered")
-			}
-			o.Mark("C11", fmt.Sprintf("%v|%v|%v|%v|%s", facing, p.InitialStackSize > cw, p.InitialStackSize > cw+prev, p.InitialStackSize >= mb, strings.Join(a, ",")))
-		}
-	}
 	// ---------- C11 effects / C12 raise rule ----------
 	if pre != nil && err == nil && op.kind == "act" && pre.Status.CurrentEvent == "RoundStarted" {
 		actor := pre.Status.CurrentPlayer
@@ -583,6 +535,59 @@ func (m *engineMon) afterOp(opLine string, pre *pokerface.GameState, err error) 
 		}
 		if st.Round == pre.Status.Round && st.CurrentWager < pcw {
 			m.V("C12", "cw_monotone", fmt.Sprintf("%s lowered the wager to match from %d to %d", opLine, pcw, st.CurrentWager))
+		}
+	}
+	// ---------- C11 offered actions (after the ghost update above: "the minimum raise" is the size of the last bet or
+	// full raise of the round as it was carried out, not the field the engine keeps; the two are proved equal on the
+	// unchanged tree, C12.recorded_is_last_raise + monitor_rule_agrees) ----------
+	if st.CurrentEvent == "RoundStarted" && st.CurrentPlayer >= 0 && st.CurrentPlayer < n {
+		p := gs.Players[st.CurrentPlayer]
+		a := p.AllowedActions
+		cw, prev, mb := st.CurrentWager, m.lastRaise, st.MiniBet
+		if prev != st.PreviousRaiseSize {
+			o.Count("engine.recorded_min_raise_differs_from_ghost")
+		}
+		bad := func(what string) {
+			m.V("C11", "offered_spec", fmt.Sprintf("%s: seat %d fold=%v stack=%d initial=%d wager=%d, wager to match %d, previous raise %d, minimum bet %d, offered %v",
+				what, p.Idx, p.Fold, p.StackSize, p.InitialStackSize, p.Wager, cw, prev, mb, a))
+		}
+		if p.Fold || p.StackSize == 0 {
+			if len(a) != 1 || a[0] != "pass" {
+				bad("a folded or all-in seat must only be asked to pass")
+			}
+		} else {
+			facing := p.Wager < cw
+			if has(a, "pass") {
+				bad("pass offered to a player who can act")
+			}
+			if !has(a, "allin") {
+				bad("all-in not offered")
+			}
+			if has(a, "fold") != facing {
+				bad("fold must be offered exactly when facing a higher wager")
+			}
+			if has(a, "check") != !facing {
+				bad("check must be offered exactly when not facing a higher wager")
+			}
+			if facing && p.InitialStackSize > cw && !has(a, "call") {
+				bad("call not offered although the wager can be covered with chips to spare")
+			}
+			if has(a, "call") && !facing {
+				bad("call offered without a wager to face")
+			}
+			if cw == 0 && p.InitialStackSize >= mb && !has(a, "bet") {
+				bad("bet not offered")
+			}
+			if has(a, "bet") && cw != 0 {
+				bad("bet offered although a wager stands")
+			}
+			if cw > 0 && p.InitialStackSize > cw+prev && p.InitialStackSize >= mb && !has(a, "raise") {
+				bad("raise not offered")
+			}
+			if has(a, "raise") && cw == 0 {
+				bad("raise offered although nobody has wagered")
+			}
+			o.Mark("C11", fmt.Sprintf("%v|%v|%v|%v|%s", facing, p.InitialStackSize > cw, p.InitialStackSize > cw+prev, p.InitialStackSize >= mb, strings.Join(a, ",")))
 		}
 	}
 	if pre != nil && err == nil && op.kind == "act" && op.act == "raise" && pre.Status.CurrentEvent == "RoundStarted" {
